@@ -6,6 +6,7 @@ import (
 	"net/http"
 	"net/url"
 	"sort"
+	"strconv"
 	"strings"
 
 	"github.com/gookit/rux"
@@ -35,6 +36,7 @@ type namedRouteSpec struct {
 	Cls   []int
 	API   string
 	route *rux.Route
+	VarFirst bool
 }
 
 func genNamedRoute(r *rand.Rand, k int, name string) *namedRouteSpec {
@@ -42,6 +44,12 @@ func genNamedRoute(r *rand.Rand, k int, name string) *namedRouteSpec {
 	ns.API = pick(r, []string{"AddNamed", "NewNamedRoute+AddRoute", "NamedRoute+AttachTo", "GET+NamedTo"})
 	nv := r.IntN(4)
 	path := fmt.Sprintf("/n%d", k)
+	if chance(r, 1, 5) {
+		// a variable-first route: its values may spell the literal first segment of a sibling route
+		nv = 2 + r.IntN(2)
+		path = ""
+		ns.VarFirst = true
+	}
 	names := []string{"id", "name", "n", "uid", "x"}
 	r.Shuffle(len(names), func(i, j int) { names[i], names[j] = names[j], names[i] })
 	for i := 0; i < nv; i++ {
@@ -52,7 +60,7 @@ func genNamedRoute(r *rand.Rand, k int, name string) *namedRouteSpec {
 		if chance(r, 1, 2) {
 			ci = 0
 		}
-		if chance(r, 1, 3) {
+		if chance(r, 1, 3) && !(ns.VarFirst && i == 0) {
 			path += pick(r, []string{"/lit", "/v1.0", "/a-b"})
 		}
 		v := "{" + names[i]
@@ -70,6 +78,9 @@ func genNamedRoute(r *rand.Rand, k int, name string) *namedRouteSpec {
 		}
 		ns.Vars = append(ns.Vars, names[i])
 		ns.Cls = append(ns.Cls, ci)
+	}
+	if ns.VarFirst {
+		path += fmt.Sprintf("/vf%d", k)
 	}
 	ns.Path = path
 	return ns
@@ -99,7 +110,7 @@ func (ns *namedRouteSpec) register(router *rux.Router) {
 }
 
 func runC15(e *Env) {
-	e.Rule = "named routes without optional parts (static, 1..3 variables: default, \\d+, [a-z]+, \\d{2}, .+ as last; literal text between and around variables) registered through each naming API (AddNamed, NewNamedRoute+AddRoute, NamedRoute+AttachTo, GET+NamedTo), with re-registrations and re-namings under the same name; values drawn from hostile pools that satisfy the class (blanks, non-ASCII, %, %2F, ?, #, +, &, text that looks like another placeholder, $1, dots); extra non-variable arguments; three argument styles (M, key/value pairs, *BuildRequestURL with Params+Queries). Oracle (round trip): BuildURL -> String() -> url.ParseRequestURI -> Match and ServeHTTP must select the route most recently registered under the name with params == the supplied values, the query must contain exactly the extra arguments, GetRoute(name) must be that route. Each assignment is built 6 times (map iteration order is part of the input). Non-trivial: a value with a character that needs escaping or that looks like a placeholder, >= 2 variables, or a re-registered name; distinct by (route, assignment, style)."
+	e.Rule = "named routes without optional parts (static, 1..3 variables: default, \\d+, [a-z]+, \\d{2}, .+ as last; literal text between and around variables; also variable-first routes whose values spell the literal first segment of a sibling route; numeric values passed as int/int64/uint) registered through each naming API (AddNamed, NewNamedRoute+AddRoute, NamedRoute+AttachTo, GET+NamedTo), with re-registrations and re-namings under the same name; values drawn from hostile pools that satisfy the class (blanks, non-ASCII, %, %2F, ?, #, +, &, text that looks like another placeholder, $1, dots); extra non-variable arguments; three argument styles (M, key/value pairs, *BuildRequestURL with Params+Queries). Oracle (round trip): BuildURL -> String() -> url.ParseRequestURI -> Match and ServeHTTP must select the route most recently registered under the name with params == the supplied values, the query must contain exactly the extra arguments, GetRoute(name) must be that route. Each assignment is built 6 times (map iteration order is part of the input). Non-trivial: a value with a character that needs escaping or that looks like a placeholder, >= 2 variables, or a re-registered name; distinct by (route, assignment, style)."
 	e.Assumptions = []string{
 		"values whose leading/trailing white space or trailing '/' would land at the very end of the path are excluded: path normalisation (C11) removes them by design",
 		"path variables are addressed as \"{name}\" keys, other keys are query arguments (documented calling convention)",
@@ -175,6 +186,9 @@ func c15Case(t *T) {
 			nontrivial := len(ns.Vars) >= 2
 			for i, v := range ns.Vars {
 				val := pick(r, urlClasses[ns.Cls[i]].Values)
+				if ns.VarFirst && i == 0 && urlClasses[ns.Cls[i]].Re == "" && chance(r, 2, 3) {
+					val = fmt.Sprintf("n%d", 1+r.IntN(len(specs))) // the literal first segment of another route
+				}
 				if i == len(ns.Vars)-1 && strings.HasSuffix(ns.Path, "}") {
 					// the value ends the path: normalisation would strip trailing blanks / slashes
 					for strings.HasSuffix(val, " ") || strings.HasSuffix(val, "/") || strings.HasPrefix(val, " ") && len(ns.Vars) == 0 {
@@ -193,6 +207,22 @@ func c15Case(t *T) {
 			for i, n := 0, r.IntN(3); i < n; i++ {
 				extras[pick(r, []string{"q", "page", "sort by", "a&b", "ü"})] = pick(r, []string{"1", "x y", "a&b=c", "é", "", "%41", "{id}"})
 			}
+			asAny := func(s string) any {
+				// purely numeric values are handed over as numbers (the documented M is map[string]any)
+				if n, err := strconv.Atoi(s); err == nil && strconv.Itoa(n) == s {
+					switch r.IntN(4) {
+					case 0:
+						return n
+					case 1:
+						return int64(n)
+					case 2:
+						if n >= 0 {
+							return uint(n)
+						}
+					}
+				}
+				return s
+			}
 			for styleI, style := range []string{"M", "pairs", "builder"} {
 				for build := 0; build < 2; build++ {
 					var u *url.URL
@@ -201,7 +231,7 @@ func c15Case(t *T) {
 						case "M":
 							m := rux.M{}
 							for k, v := range vals {
-								m["{"+k+"}"] = v
+								m["{"+k+"}"] = asAny(v)
 							}
 							for k, v := range extras {
 								m[k] = v
@@ -214,7 +244,7 @@ func c15Case(t *T) {
 						case "pairs":
 							var args []any
 							for k, v := range vals {
-								args = append(args, "{"+k+"}", v)
+								args = append(args, "{"+k+"}", asAny(v))
 							}
 							for k, v := range extras {
 								args = append(args, k, v)
@@ -229,7 +259,7 @@ func c15Case(t *T) {
 							b := rux.NewBuildRequestURL()
 							pm := rux.M{}
 							for k, v := range vals {
-								pm["{"+k+"}"] = v
+								pm["{"+k+"}"] = asAny(v)
 							}
 							qs := url.Values{}
 							for k, v := range extras {
@@ -262,6 +292,13 @@ func c15Case(t *T) {
 					}
 					// dispatch
 					route, ps, _ := router.Match("GET", parsed.Path)
+					if route != nil && route != ns.route && ns.VarFirst {
+						// a variable-first route whose value spells a sibling's literal first segment: the
+						// sibling matches the same path and the documented priority (C01) prefers it. Not a
+						// round-trip matter.
+						t.Count("roundtrip.shadowed_by_literal_first_sibling", 1)
+						continue
+					}
 					if route != ns.route {
 						gp := "<no route>"
 						if route != nil {
